@@ -194,6 +194,19 @@ def gen_C16(tier, rng):
             ins.append(("eq", 0, len(ins) - 1))
             ins.append(("eq", len(ins) - 2, 1))
         cases.append(case("eq", ins, "equality"))
+    # ranks 5-6 and larger dimensions
+    for _ in range(40 if tier == "quick" else 400):
+        while True:
+            s = [rng.choice([1, 2, 3, 4, 5, 7, 11]) for _ in range(rng.randint(2, 6))]
+            if prod(s) <= 2000:
+                break
+        n = prod(s)
+        ins = [("leaf", False, s, [float(j % 97) for j in range(n)])]
+        for _ in range(12):
+            ins.append(("index", 0, [rng.randrange(d) for d in s]))
+            ins.append(("indexflat", 0, rng.randrange(n)))
+        ins.append(("indexflat", 0, n))
+        cases.append(case("layout_large", ins, "layout:large"))
     if tier == "thorough":
         for _ in range(400):
             r = rng.randint(1, 4)
@@ -259,6 +272,27 @@ def gen_C04(tier, rng):
             op = EW_OPS[(a_ + 3 * b_ + len(x)) % len(EW_OPS)]
             cases.append(case("ew_sizes", [a, b, ("op", op, [0, 1])],
                               "sizes:compatible" if ok else "sizes:refuse"))
+    # larger sizes and ranks than the exhaustive scope: rank up to 6, dimensions up to 17
+    for _ in range(80 if tier == "quick" else 1500):
+        r = rng.randint(1, 6)
+        while True:
+            out = [rng.choice([1, 2, 3, 4, 5, 7, 8, 9, 12, 16, 17]) for _ in range(r)]
+            if prod(out) <= 1500:
+                break
+        def big_operand():
+            rr = rng.randint(1, r)
+            return [d if rng.random() < 0.6 else 1 for d in out[r - rr:]]
+        x, y = big_operand(), big_operand()
+        if rng.random() < 0.2:
+            y = list(y)
+            j = rng.randrange(len(y))
+            y[j] = y[j] * rng.choice([2, 3]) if rng.random() < 0.5 else y[j] + 1
+        a = ("leaf", False, x, [float(rng.randint(-9, 9)) for _ in range(prod(x))])
+        b = ("leaf", False, y, [float(rng.randint(1, 9)) for _ in range(prod(y))])
+        if bcompat(x, y) and prod(bshape(x, y)) <= 4000:
+            cases.append(case("ew_large", [a, b] + [("op", op, [0, 1]) for op in EW_OPS[:3]], "large:compatible"))
+        elif not bcompat(x, y):
+            cases.append(case("ew_large", [a, b, ("op", rng.choice(EW_OPS), [0, 1])], "large:refuse"))
     count = 300 if tier == "quick" else 4000
     for _ in range(count):
         r = rng.randint(1, 4)
@@ -372,6 +406,24 @@ def gen_C05(tier, rng):
                     ins = [("leaf", False, da, iota(prod(da))), ("leaf", False, db, iota(prod(db))),
                            ("op", ("matmul", ta, tb), [0, 1])]
                     cases.append(case("mm_refuse", ins, "refuse:inner"))
+    # larger sizes than the grid: up to 11 x 13 x 9, leading dimensions up to 4 x 5, integer data (exact)
+    for _ in range(50 if tier == "quick" else 800):
+        rows, inner, cols = rng.randint(1, 11), rng.randint(1, 13), rng.randint(1, 9)
+        ta, tb = rng.random() < 0.5, rng.random() < 0.5
+        out_lead = [rng.randint(1, 5) for _ in range(rng.randint(0, 2))]
+        def lead_big():
+            r = rng.randint(0, len(out_lead))
+            return [d if rng.random() < 0.6 else 1 for d in out_lead[len(out_lead) - r:]]
+        da = lead_big() + mat_dims(rows, inner, ta)
+        db = lead_big() + mat_dims(inner, cols, tb)
+        ins = [("leaf", False, da, int_vals(prod(da), rng)), ("leaf", False, db, int_vals(prod(db), rng))]
+        f = rng.choice(bias_forms(rows, cols))
+        if f is None:
+            ins.append(("op", ("matmul", ta, tb), [0, 1]))
+        else:
+            ins.append(("leaf", False, f, int_vals(prod(f), rng, -50, 50)))
+            ins.append(("op", ("matmul", ta, tb), [0, 1, 2]))
+        cases.append(case("mm_large", ins, "large"))
     count = 150 if tier == "quick" else 3000
     for _ in range(count):
         rows, inner, cols = (rng.randint(1, 5) for _ in range(3))
@@ -442,6 +494,13 @@ def gen_C06(tier, rng):
         rest = [g for g in grid if g not in small]
         grid = small + rng.sample(rest, 600)
     cases = [conv_case(rng, *g) for g in grid]
+    # larger geometry than the grid: images up to 9 x 11, filters up to 4 x 5, strides up to 4, depth/count up to 3
+    for _ in range(40 if tier == "quick" else 600):
+        rows, cols = rng.randint(3, 9), rng.randint(3, 11)
+        fr, fc = rng.randint(1, min(4, rows)), rng.randint(1, min(5, cols))
+        cases.append(conv_case(rng, rng.choice([[], [3], [2, 3], [1, 2]]), rng.randint(1, 3), rng.randint(1, 3),
+                               rows, cols, fr, fc, rng.randint(1, 4), rng.randint(1, 4)))
+        cases[-1]["cls"] = "large:" + cases[-1]["cls"]
     for _ in range(60 if tier == "quick" else 1500):
         rows, cols = rng.randint(1, 7), rng.randint(1, 7)
         fr, fc = rng.randint(1, min(3, rows)), rng.randint(1, min(3, cols))
@@ -522,6 +581,21 @@ def gen_C07(tier, rng):
         ins.append(("op", ("softmax",), [0]))
         ins.append(("op", ("softmax",), [1]))
         cases.append(case("maps", ins, "maps:rank%d" % len(s), rtol=1e-9))
+    # ranks 5-6 and dimensions up to 9 (beyond the exhaustive scope)
+    for _ in range(40 if tier == "quick" else 500):
+        while True:
+            s = [rng.choice([1, 2, 3, 4, 5, 7, 9]) for _ in range(rng.randint(2, 6))]
+            if prod(s) <= 1200:
+                break
+        n = prod(s)
+        ins = [("leaf", False, s, [float(rng.randint(-5, 5)) for _ in range(n)])]
+        for k in sorted(set([0, 1, len(s), rng.randint(0, len(s))])):
+            ins.append(("op", ("sum", k), [0]))
+        ins.append(("sumall", 0))
+        ins.append(("op", ("reshape", rng.choice(factorizations(n, 4) or [[n]])), [0]))
+        ins.append(("op", ("neg",), [0]))
+        ins.append(("op", ("relu",), [0]))
+        cases.append(case("c07_large", ins, "large"))
     if tier == "thorough":
         for _ in range(600):
             s = [rng.randint(1, 6) for _ in range(rng.randint(1, 4))]
@@ -933,6 +1007,21 @@ def gen_C03(tier, rng):
                     c["adjudicate"].append(base + 1 + j)
                     c.setdefault("grads2", {})[leaf] = base + 1 + j
             cases.append(c)
+    # larger ranks and sizes than the exhaustive scope
+    for _ in range(60 if tier == "quick" else 800):
+        r = rng.randint(2, 5)
+        while True:
+            out = [rng.choice([1, 2, 3, 4, 5, 7]) for _ in range(r)]
+            if prod(out) <= 600:
+                break
+        rr = rng.randint(1, r)
+        y = [d if rng.random() < 0.5 else 1 for d in out[r - rr:]]
+        b = randprog.Builder(rng, exact=True)
+        big = b.leaf(out, tracked=True)
+        small = b.leaf(y, tracked=True)
+        t1 = b.result(("mul",), [big, small], out, False, True, 0)
+        t2 = b.result(("add",), [small, t1], out, False, True, 0)
+        cases.append(graph_case("bcast_large", b, t2, b.seed_for(t2, "int"), "large"))
     # broadcasting inside matmul (bias, leading dims) and conv bias
     for _ in range(120 if tier == "quick" else 1500):
         b = randprog.Builder(rng, exact=True, ops=[("matmul", 3), ("add", 2), ("mul", 2), ("sum", 1), ("conv", 1)])
